@@ -1,9 +1,10 @@
 '''
 C05 -- Prebuild followed by text generation reproduces the program.
 
-E2: every well-formed, name-resolved program of four bounded families (every
+E2: every well-formed, name-resolved program of five bounded families (every
 statement form; typed expression trees; statement sequences; control-flow
-nesting), printed from its tuple syntax tree, is placed in each action home of
+nesting; pairs of qualified enumerator / constant names that share their
+unqualified part), printed from its tuple syntax tree, is placed in each action home of
 a host model built through the xtuml API (function, bridge, instance-based
 operation, derived attribute), translated with bridgepoint.prebuild_action /
 prebuild_model and turned back into text with bridgepoint.gen_text_action.
@@ -26,6 +27,9 @@ ASSUMPTIONS = [
     'un-namespaced constant reads (x = TEN) are excluded: the qualified form K::TEN is the only one the model can regenerate',
     'ports, signals and events are outside the supported statement set (they need component wiring and state machines)',
     'agreement between "return <value>" / bare "return" and the return type of the home is not enforced (the translation does not depend on it)',
+    'the host declares two enumeration types sharing an enumerator name (Color::Red, Mode::Red), two constant groups sharing a constant '
+    'name with different types (K::TEN integer, L::TEN string) and a constant named like an enumerator (L::Red); the family "names" reads '
+    'every ordered pair of these qualified names in one body; user data types defined over an enumeration are not part of the host',
     'every translation runs on a copy-on-write snapshot (fork) of one pristine host per worker, verified consistent before use',
 ]
 
@@ -45,6 +49,8 @@ REQUIRED_FEATURES = [
     'assign:migrates-instance', 'assign:migrates-set', 'param-read', 'enumerator', 'constant', 'self', 'selected', 'using',
     'relate:phrase', 'return:value', 'return:bare', 'attribute-read:base', 'attribute-read:derived', 'attribute-read:ref',
     'if:elif-0:no-else', 'if:elif-1:else', 'if:elif-2:else', 'if:elif-2:no-else',
+    'same-name:enumerator-then-enumerator', 'same-name:enumerator-then-constant', 'same-name:constant-then-enumerator',
+    'same-name:constant-then-constant',
 ] + ['binary:' + op for op in ('+', '-', '*', '/', '%', '|', '&', '^', '<', '<=', '==', '!=', '>=', '>', 'and', 'or')] \
   + ['unary:' + op for op in ('not', 'empty', 'not_empty', 'cardinality', '+', '-')]
 
@@ -81,6 +87,7 @@ def guards(ctx, tasks):
         ctx.require(ctx.nd('home:' + home) >= 300, 'too few programs in the %s home (%d)' % (home, ctx.nd('home:' + home)))
     ctx.require(ctx.n('entry:action') > 0 and ctx.n('entry:model') > 0, 'one of the two prebuild entry points was never used')
     ctx.require(ctx.nd('states') == len(tasks) or ctx.caps_hit, 'not every task was run (%d of %d)' % (ctx.nd('states'), len(tasks)))
+    ctx.require(ctx.n('family:names') >= 300, 'family names too small (%d)' % ctx.n('family:names'))
     for fam in ('statements', 'expressions', 'sequences', 'nesting'):
         ctx.require(ctx.n('family:' + fam) >= 500, 'family %s too small (%d)' % (fam, ctx.n('family:' + fam)))
 
